@@ -260,6 +260,14 @@ def h_index_forms(pr0: bool, pr1: bool, pr2: bool, pr3: bool, m0: int, m1: int, 
         for k, e in idx.items():
             if src[k] is not e and _proj(src[k]) != _proj(e):
                 violation("trie-cache-returns-other-entry", k)
+        if cube("mutate", False):
+            # update-in-place pattern: fetch an entry, change it, store the very same object again
+            for k in list(idx.keys()):
+                e = src[k]
+                e.loaded = not bool(e.loaded)
+                e.hash_info = HashInfo("md5", "changed" + ("" if not e.hash_info or not e.hash_info.value else e.hash_info.value))
+                src[k] = e
+                exp[k] = _proj(e)
         src.commit()
         src.close()  # drops the identity cache; from now on values come from their JSON form
         back = DataIndex()
